@@ -3,6 +3,7 @@
 package sqlc
 
 import (
+	"context"
 	"database/sql"
 	"fmt"
 	"math"
@@ -46,6 +47,7 @@ type c06Row struct {
 }
 
 type c06Env struct {
+	ctx     context.Context // for the next reads, if set
 	r       *zsim.Run
 	srvs    []*zredis.Server
 	cc      CachedConn
@@ -104,7 +106,11 @@ func pkKey(id int) string { return fmt.Sprintf("cache:row:id:%d", id) }
 func (e *c06Env) queryPK(id int, sleep time.Duration) (c06Row, error) {
 	var row c06Row
 	key := pkKey(id)
-	err := e.cc.QueryRow(&row, key, func(_ sqlx.Conn, v any) error {
+	ctx := e.ctx
+	if ctx == nil {
+		ctx = context.Background()
+	}
+	err := e.cc.QueryRowCtx(ctx, &row, key, func(_ context.Context, _ sqlx.Conn, v any) error {
 		e.queries[key]++
 		e.inQuery[key]++
 		if e.inQuery[key] > 1 {
@@ -257,9 +263,22 @@ func c06Sequential(r *zsim.Run) {
 			}
 		case 3: // read through the index
 			name := id % 2
+			idxCached, pkCached := e.holder(idxKey(name)) != nil, e.holder(pkKey(name+100)) != nil
 			row, err := e.queryIdx(name)
 			r.Logf("queryrowindex name %d -> %+v %v", name, row, err)
 			if !e.checkRead("QueryRowIndex", row, err, name+100) {
+				return
+			}
+			if !idxCached && e.db[name+100] != 0 {
+				// the index read stored the index key, and the row under its primary key with a 5s safety gap
+				r.Probe("index_read_stored_keys")
+				if !e.checkTTL(idxKey(name), expire, 0) {
+					return
+				}
+				if !pkCached && !e.checkTTL(pkKey(name+100), expire, 5*time.Second) {
+					return
+				}
+			} else if !idxCached && !e.checkTTL(idxKey(name), nf, 0) {
 				return
 			}
 		case 4, 5: // write: insert / update / delete the row, naming the affected keys
@@ -381,8 +400,23 @@ func c06Faults(r *zsim.Run) {
 	if o.Intn(3) == 0 {
 		// a read during a fault: an error, never a fall-through to the database
 		before := e.queries[key]
-		switch kind {
-		case 0:
+		rk := f.Intn(3)
+		var cancel context.CancelFunc
+		switch {
+		case rk > 0:
+			// the server accepts the command and does not answer in time: the client's read timeout, or the
+			// caller's own deadline, ends the wait
+			srv.Stall = func(cmd string, args []string) time.Duration {
+				if cmd == "GET" {
+					r.FaultFired("redis-stall")
+					return time.Minute
+				}
+				return 0
+			}
+			if rk == 2 {
+				e.ctx, cancel = context.WithTimeout(context.Background(), 150*time.Millisecond)
+			}
+		case kind == 0:
 			srv.FailReply = func(cmd string, args []string) string {
 				if cmd == "GET" {
 					r.FaultFired("redis-error-reply")
@@ -394,8 +428,13 @@ func c06Faults(r *zsim.Run) {
 			srv.Cut()
 		}
 		row, err := e.queryPK(id, 0)
-		r.Logf("read during fault -> %+v %v", row, err)
+		r.Logf("read during fault (read fault %d) -> %+v %v", rk, row, err)
+		if cancel != nil {
+			cancel()
+		}
+		e.ctx = nil
 		srv.FailReply = nil
+		srv.Stall = nil
 		srv.Heal()
 		if err == nil || err == sql.ErrNoRows {
 			r.Failf("cache-failure-hidden", "Redis failed during the read but QueryRow returned (%+v, %v) instead of the cache error", row, err)
@@ -405,7 +444,7 @@ func c06Faults(r *zsim.Run) {
 			r.Failf("cache-failure-falls-through", "Redis failed during the read and the read went on to query the database")
 			return
 		}
-		e.advance(15 * time.Second) // let the wrapper's breaker forget
+		e.advance(75 * time.Second) // let stalled commands drain and the wrapper's breaker forget
 	}
 	// a write whose cache delete fails
 	faultFor := zsim.Pick(f, 500*time.Millisecond, 3*time.Second, 30*time.Second, 4*time.Minute, 30*time.Minute)
@@ -431,13 +470,18 @@ func c06Faults(r *zsim.Run) {
 		keys = append(keys, otherKey)
 		r.Probe("multi_node_delete")
 	}
-	_, err := e.cc.Exec(func(sqlx.Conn) (sql.Result, error) {
+	reqCtx, reqDone := context.WithCancel(context.Background())
+	if o.Intn(2) == 0 {
+		reqCtx, reqDone = context.WithTimeout(context.Background(), 10*time.Second)
+	}
+	_, err := e.cc.ExecCtx(reqCtx, func(context.Context, sqlx.Conn) (sql.Result, error) {
 		e.db[id] = 2
 		if otherID != 0 {
 			e.db[otherID] = 2
 		}
 		return nil, nil
 	}, keys...)
+	reqDone() // the request is over; the background retry must not depend on it
 	stillCached := srv.M.Exists(key)
 	if otherSrv != nil && otherSrv.M.Exists(otherKey) {
 		r.Failf("healthy-node-key-not-deleted", "the write named keys on two cache nodes; the node holding %s is healthy but the key is still cached after Exec returned", otherKey)
